@@ -17,9 +17,12 @@ def fstrs (j : Json) (k : String) : Except String (List String) := do strs (← 
 def fbool (j : Json) (k : String) : Except String Bool := do (← field j k).getBool?
 def fnat (j : Json) (k : String) : Except String Nat := do (← field j k).getNat?
 
-def decKind : String → Except String ExcKind
-  | "exc" => pure .exc | "AbortTest" => pure .abortTest | "AbortSuite" => pure .abortSuite
-  | "AbortAllTests" => pure .abortAll | k => throw s!"unknown raise kind {k}"
+/-- the class of the raised object: `kind` names the framework class, `sub` says the object is an instance of a
+    project-defined subclass of it; the model classifies it with `ExcClass.kind` (isinstance semantics) -/
+def decClass (k : String) (sub : Bool) : Except String ExcClass :=
+  match ExcClass.ofName k sub with
+  | some c => pure c
+  | none => throw s!"unknown raise kind {k} (sub={sub})"
 
 partial def decAct (j : Json) : Except String Act := do
   match (← (← field j "a").getStr?) with
@@ -28,9 +31,12 @@ partial def decAct (j : Json) : Except String Act := do
   | "step" => pure (.step (← (← field j "d").getStr?))
   | "url" => pure .url
   | "attach" => pure .attach
-  | "raise" => pure (.raise (← decKind (← (← field j "kind").getStr?)))
+  | "raise" =>
+    let sub := match fieldOpt j "sub" with | .bool b => b | _ => false
+    pure (.raise (← decClass (← (← field j "kind").getStr?) sub).kind)
   | "gate" => pure .gate
   | "thread" => pure (.thread (← (← (← field j "script").getArr?).toList.mapM decAct))
+  | "attachw" => pure (.attachBlock (← (← (← field j "script").getArr?).toList.mapM decAct))
   | a => throw s!"unknown act {a}"
 
 def decScript (j : Json) : Except String Script := do (← j.getArr?).toList.mapM decAct
@@ -89,7 +95,7 @@ def decGTask (j : Json) : Except String GTask := do
          succ := ← natList (← field j "succ"), compl := ← natList (← field j "compl") }
 
 /-- unit ids travel as flat lists: ["fx",func,"setup"|"teardown"] | ["hook",path,hook,test|null] | ["body",path],
-    followed by any number of "th", i pairs -/
+    followed by any number of "th", i (script of an lcc.Thread) or "blk", i (body of an attachment block) pairs -/
 def decUnit (j : Json) : Except String UnitId := do
   let a ← j.getArr?
   let l := a.toList
@@ -112,8 +118,10 @@ def decUnit (j : Json) : Except String UnitId := do
   let rec go (u : UnitId) : List Json → Except String UnitId
     | [] => pure u
     | t :: i :: rest => do
-      if (← t.getStr?) != "th" then throw "bad unit suffix"
-      go (.th u (← i.getNat?)) rest
+      match (← t.getStr?) with
+      | "th" => go (.th u (← i.getNat?)) rest
+      | "blk" => go (.blk u (← i.getNat?)) rest
+      | _ => throw "bad unit suffix"
     | _ => throw "bad unit suffix"
   go base rest
 
